@@ -338,6 +338,91 @@ pub fn check(case: &Case) -> CaseResult {
 
 pub const RULE: &str = "capacity 1-16 or 30-70, typed/boxed queue with a local DebuggingRecorder, writer stalled behind a fuel gate; steps: Append{producer, n<=40} (single driver, or all 2-4 producers concurrently from real threads) and Grant(k) (k=0.. units of writer progress, waited for) or GrantAsync(k) (not waited for: the following appends race with the writer's pops on a full queue). Oracle (sound necessary conditions; the writer may hold one popped entry): N1 delivered ids are a subsequence of each producer's append order (and of the global order for a single driver), nothing twice; N2 an entry is lost only if >= capacity appends ended after its append started and (single driver) >= capacity newer appends had begun before the writer delivered the first entry newer than it; N3 fully stalled single driver: the newest min(capacity, n) entries all survive and at most capacity+1 are delivered; N4 metrique_queue_overflows == number of lost entries exactly; N5 an append never blocks (10 s + causal confirmation that it completes when fuel is granted). Non-trivial = >=1 loss with partial writer progress (0 < fuel < appends)";
 
+/// an entry that is wide INLINE (no heap indirection): the ring buffer holds the entries themselves
+pub struct WideE<const N: usize>(pub [u8; N], pub Id);
+impl<const N: usize> metrique_writer_core::Entry for WideE<N> {
+    fn write<'a>(&'a self, w: &mut impl metrique_writer_core::EntryWriter<'a>) {
+        w.value("p", &(self.1.p as u64));
+        w.value("s", &(self.1.s as u64));
+    }
+}
+
+#[derive(Clone, Debug, Serialize, Deserialize)]
+pub struct WideCase {
+    /// 0 = 4 KiB entries, 1 = 32 KiB entries
+    pub width: u8,
+    pub capacity: u16,
+    /// how many entries beyond the capacity are appended (0 = exactly full, no loss allowed)
+    pub extra: u8,
+}
+
+fn run_wide<const N: usize>(case: &WideCase) -> CaseResult {
+    let cap = case.capacity.max(2) as usize;
+    let log = Arc::new(EventLog::default());
+    let gate = Gate::new(false);
+    let stream = BqStream::new(vec![], gate.clone(), log.clone());
+    let recorder = metrics_util_020::debugging::DebuggingRecorder::new();
+    let snapshotter = recorder.snapshotter();
+    let (q, handle) = metrique_writer::sink::BackgroundQueueBuilder::new()
+        .capacity(cap)
+        .flush_interval(Duration::from_millis(1))
+        .metric_name("vq")
+        .metrics_recorder_local::<dyn metrics_024::Recorder, _>(recorder)
+        .build::<WideE<N>>(stream);
+    // the writer takes (at most) one entry and then waits at the shut gate
+    let n = cap + case.extra as usize;
+    for s in 0..n {
+        q.append(WideE([0u8; N], Id { p: 0, s: s as u32 }));
+    }
+    gate.open();
+    drop(q);
+    no_panic("queue-shutdown", || handle.shut_down())?;
+    let delivered: Vec<u32> = log
+        .snapshot()
+        .iter()
+        .filter_map(|e| if let Ev::Next(id, _) = e { Some(id.s) } else { None })
+        .collect();
+    let counted: u64 = snapshotter
+        .snapshot()
+        .into_vec()
+        .into_iter()
+        .filter(|(k, ..)| k.key().name() == "metrique_queue_overflows")
+        .map(|(_, _, _, v)| match v {
+            metrics_util_020::debugging::DebugValue::Counter(c) => c,
+            _ => 0,
+        })
+        .sum();
+    // the newest `capacity` entries always survive a stalled writer, whatever the entry size
+    for s in (n - cap)..n {
+        vensure!(
+            delivered.contains(&(s as u32)),
+            "overflow:lost-without-capacity-newer-entries",
+            "{}-byte entries, configured capacity {cap}, {n} appended with the writer stalled: entry {s} (one of the newest {cap}) was lost; {} delivered, overflow counter {counted}",
+            N,
+            delivered.len()
+        );
+    }
+    vensure!(
+        counted as usize == n - delivered.len(),
+        "overflow:counter-wrong",
+        "{}-byte entries, capacity {cap}: {n} appended, {} delivered, overflow counter {counted}",
+        N,
+        delivered.len()
+    );
+    let mut classes: Classes = vec!["nt"];
+    if N * cap > 64 << 20 {
+        classes.push("ring-larger-than-64-MiB");
+    }
+    Ok(classes)
+}
+
+pub fn check_wide(case: &WideCase) -> CaseResult {
+    match case.width % 2 {
+        0 => run_wide::<4096>(case),
+        _ => run_wide::<32768>(case),
+    }
+}
+
 pub fn run(ctx: &mut Ctx) {
     ctx.assume("the exact set of survivors is racy by one entry (the writer may already hold the oldest one); only conditions that hold on every schedule are asserted");
     let q = ctx.tier == Tier::Quick;
@@ -370,6 +455,25 @@ pub fn run(ctx: &mut Ctx) {
                 })
         },
         check,
+    );
+    // memory-heavy (up to ~100 MiB per case): few cases, one at a time
+    ctx.explore(
+        SubCfg::new(
+            "c09-wide-entries",
+            "typed queue whose entry type is 4 KiB or 32 KiB wide inline (the ring holds the entries themselves), configured capacity 2-3000, writer stalled, capacity + 0..40 entries appended, then released. Oracle: the configured capacity is honoured whatever the entry size - the newest `capacity` entries all survive, the overflow counter equals the losses. Non-trivial = every case",
+            if q { 6 } else { 60 },
+        )
+        .threads(1)
+        .shrink_iters(8)
+        .mandatory(&["ring-larger-than-64-MiB"]),
+        || {
+            prop_oneof![
+                2 => (Just(1u8), 2049u16..3000, prop_oneof![Just(0u8), 0u8..40]),
+                1 => (0u8..2, prop_oneof![2u16..200, 2049u16..3000], prop_oneof![Just(0u8), 0u8..40]),
+            ]
+            .prop_map(|(width, capacity, extra)| WideCase { width, capacity, extra })
+        },
+        check_wide,
     );
 }
 
